@@ -146,6 +146,8 @@ Definition validate_spec (s : spec) : result unit :=
 
 (* ReadSpec / the cache scan on a document *)
 Definition accepts (d : doc) : result unit := bind (spec_of_doc d) validate_spec.
+(* the same with the duplicate-member check of the YAML layer in front (what ReadSpec does with any tree) *)
+Definition accepts_strict (d : doc) : result unit := bind (strict_of_doc d) validate_spec.
 
 (* ====================== Part 2: well-formedness, declaratively ====================== *)
 
